@@ -93,6 +93,19 @@ def _lower(v):
     return v.lower()
 
 
+_INT_BITS = {"i8": (1, 8), "i16": (1, 16), "i32": (1, 32), "i64": (1, 64), "i128": (1, 128), "u8": (0, 8), "u16": (0, 16), "u32": (0, 32), "u64": (0, 64), "u128": (0, 128)}
+
+
+def _int_widens(x, y):
+    """Every value of integer type x is a value of integer type y (an integer stays the same integer)."""
+    if x not in _INT_BITS or y not in _INT_BITS:
+        return False
+    (sx, bx), (sy, by) = _INT_BITS[x], _INT_BITS[y]
+    if sx == sy:
+        return by >= bx
+    return sx == 0 and sy == 1 and by > bx
+
+
 @rule("R01.3", 21, "borrowed Value: visit_T -> variant -> serialize_T compose to the identity; strings/bytes/collections keep payload and order", ["C01", "C06"])
 def r01_3(ctx):
     lib = ctx.lib
@@ -123,6 +136,14 @@ def r01_3(ctx):
                             p = trace(b, p.origin[1]["rv"]["ops"][0], passthrough_extra=("std::borrow::ToOwned>::to_owned", "ToOwned"))
                         bad = [s for s in p.steps if s[0] not in ("use", "ref", "deref") and not (s[0] == "call" and "to_owned" in s[1])]
                         payload_ok = bool(p.origin and p.origin[0] == "arg" and p.origin[1] == 2) and not bad
+                        if not payload_ok and b.local_ty(2) in _INT_BITS:
+                            # `Value::Int(v.into())`: a lossless widening of the integer parameter (From/Into exist
+                            # between integer types only when every value is kept)
+                            p2 = trace(b, agg["ops"][0], passthrough_extra=("std::convert::Into::into", "std::convert::From::from"))
+                            bad2 = [s for s in p2.steps if s[0] not in ("use", "ref", "deref") and not (s[0] == "call" and (s[1].startswith("std::convert::Into::into") or s[1].startswith("std::convert::From::from")))]
+                            fty = (lib.adts.get(adt_name) or {}).get("variants", [])
+                            fty = [v_["fields"][0]["ty"] for v_ in fty if v_["name"] == variant and v_["fields"]]
+                            payload_ok = bool(p2.origin == ("arg", 2)) and not bad2 and bool(fty) and _int_widens(b.local_ty(2), fty[0])
         v_of[name] = variant
         ctx.ob(f"in:{name}:payload", payload_ok and variant is not None, site(b), f"stores the parameter unchanged in Value::{variant}" if payload_ok else f"payload of Value::{variant} is not the visited value as given")
     ctx.need(adt_name, "Value ADT not identified from the visitor")
@@ -169,6 +190,11 @@ def r01_3(ctx):
                 bb, t = sers[0]
                 tr = trace(ser_body, t["args"][0])
                 ok = any(s[0] == "downcast" and s[1] == vn for s in tr.steps) and not [s for s in tr.steps if s[0] not in ("use", "ref", "deref", "field", "downcast")]
+            elif role == "Seq" and names == ["collect_seq"]:
+                # serde's provided collect_seq: serialize_seq, every item of `&Vec` in index order, end
+                bb, t = sers[0]
+                tr = trace(ser_body, t["args"][1])
+                ok = any(s[0] == "downcast" and s[1] == vn for s in tr.steps) and not [s for s in tr.steps if s[0] not in ("use", "ref", "deref", "field", "downcast")] and (fn_of(t).get("args") or ["", ""])[-1].startswith("&std::vec::Vec<")
             y_of[vn] = "serialize(" + var["fields"][0]["ty"] + ")" if ok else None
             ctx.ob(f"out:{vn}:delegates-to-payload", ok, site(ser_body, tgt[idx]), f"serialises the {vn} payload through its own Serialize impl" if ok else f"calls {names}")
         elif role == "Map":
@@ -181,7 +207,35 @@ def r01_3(ctx):
             ok_names = "serialize_map" in names and "end" in names and ("serialize_entry" in names or ("serialize_key" in names and "serialize_value" in names))
             detail = f"calls {names}"
             ok = ok_names
-            if ok and "serialize_entry" in names:
+            if names == ["collect_map"]:
+                # serde's provided collect_map over `pairs.iter().map(|(k, v)| (k, v))`: entries in vector order
+                n_, t_ = msers[0]
+                ity = (fn_of(t_).get("args") or ["", ""])[-1]
+                it = strace(msup, n_, t_["args"][1])
+                shape = ity.startswith("std::iter::Map<std::slice::Iter<") and ity.count("std::iter::") == 1
+                from_payload = False
+                pair_ok = False
+                if it.origin and it.origin[0] == "call" and (fn_of(it.origin[2]) or {}).get("def") == "std::iter::Iterator::map":
+                    mt = it.origin[2]
+                    mnode = (it.origin_node[0], it.origin[1])
+                    src = strace(msup, mnode, mt["args"][0], extra=("core::slice::<impl [T]>::iter", "std::ops::Deref::deref"))
+                    from_payload = any(s_[0] == "downcast" and s_[1] == vn for s_ in src.steps)
+                    for cid in (fn_of(mt) or {}).get("closures", []):
+                        cb = lib.by_id.get(cid)
+                        if cb is None:
+                            continue
+                        r0 = trace(cb, {"k": "copy", "p": {"l": 0, "pr": []}})
+                        if r0.origin and r0.origin[0] == "agg" and len(r0.origin[1]["rv"]["ops"]) == 2:
+                            fs = []
+                            for o in r0.origin[1]["rv"]["ops"]:
+                                ot = trace(cb, o)
+                                fs.append([s_[1] for s_ in ot.steps if s_[0] == "field"][:1] if ot.origin == ("arg", 2) else None)
+                            pair_ok = fs == [["0"], ["1"]]
+                ok = shape and from_payload and pair_ok
+                detail = f"collect_map over the pair vector's iter().map(|(k, v)| (k, v)) (iterator {ity[:60]}, key = .0, value = .1: {pair_ok})"
+            if names == ["collect_map"]:
+                pass
+            elif ok and "serialize_entry" in names:
                 n_, t_ = [x for x in msers if fn_of(x[1])["name"] == "serialize_entry"][0]
                 k = strace(msup, n_, t_["args"][1])
                 v = strace(msup, n_, t_["args"][2])
@@ -219,8 +273,8 @@ def r01_3(ctx):
             det = f"{name} -> Value::{variant}"
         else:
             y = y_of.get(variant)
-            ok = y == "serialize_" + x
-            det = f"{name} -> Value::{variant} -> {y}"
+            ok = y == "serialize_" + x or bool(y and y.startswith("serialize_") and _int_widens(x, y[len("serialize_"):]))
+            det = f"{name} -> Value::{variant} -> {y}" + (" (lossless integer widening)" if ok and y != "serialize_" + x else "")
         ctx.ob(f"compose:{name}", ok, value["self_ty"], det)
     # collection payload types: plain vectors in arrival order
     ft = {roles[v["name"]]: [f["ty"] for f in v["fields"]] for v in adt["variants"]}
